@@ -118,7 +118,7 @@ func (h *hist) read(k int, after string) bool {
 			continue
 		}
 		diag := "mismatch"
-		if role == "other-session-during-open-txn" && core.SameStrings(got, sp.expect(h.ss[h.token].work)) {
+		if role == "other-session-during-open-txn" && h.ss[h.token].work != nil && core.SameStrings(got, sp.expect(h.ss[h.token].work)) {
 			diag = "sees-uncommitted-changes-of-open-txn"
 		} else if role != "other-session-during-open-txn" && after == "rollback" {
 			diag = "after-rollback"
